@@ -42,10 +42,37 @@ func runC05(c *Ctx) {
 		return
 	}
 	tablesC05(c)
+	checkers, ok := keyidDecodeRules(c)
+	if !ok {
+		return
+	}
+
+	// ---- R4 ----
+	var entries []*ssa.Function
+	for _, n := range []string{"Unmarshal", "Clone", "New"} {
+		if f := p.Func(n); f != nil {
+			entries = append(entries, f)
+		}
+	}
+	entries = append(entries, w.methodsOf(keyidPkg, "KeyID")...)
+	entries = append(entries, checkers...)
+	runPanicRules(c, "R4", entries, 0)
+}
+
+// keyidDecodeRules: what "the KeyID decodes" means - the truth table of the version checker(s) (R2.truth) and the
+// gates of Marshal / Unmarshal (R3.gate). C09 and C19, whose statements are phrased in terms of "decodes as a
+// YSSHCA KeyID", import these rules under a rule name of their own.
+func keyidDecodeRules(c *Ctx) ([]*ssa.Function, bool) {
+	w := c.w
+	p := w.Pkg(keyidPkg)
+	if p == nil {
+		c.Unresolved("R2.truth", "package keyid")
+		return nil, false
+	}
 	kid := w.NamedType(keyidPkg, "KeyID")
 	if kid == nil {
 		c.Unresolved("R2.truth", "type keyid.KeyID")
-		return
+		return nil, false
 	}
 	// ---- R2: the version checkers: anonymous functions of the package initialiser with signature func(*KeyID) error
 	var checkers []*ssa.Function
@@ -153,17 +180,7 @@ func runC05(c *Ctx) {
 	// ---- R3 ----
 	checkKeyidMarshal(c, kid)
 	checkKeyidUnmarshal(c, kid)
-
-	// ---- R4 ----
-	var entries []*ssa.Function
-	for _, n := range []string{"Unmarshal", "Clone", "New"} {
-		if f := p.Func(n); f != nil {
-			entries = append(entries, f)
-		}
-	}
-	entries = append(entries, w.methodsOf(keyidPkg, "KeyID")...)
-	entries = append(entries, checkers...)
-	runPanicRules(c, "R4", entries, 0)
+	return checkers, true
 }
 
 func intVal(v interface{ String() string }) (int64, bool) {
